@@ -505,7 +505,9 @@ C16.level_note = (
     'UTF-8 encoder - both validated by correspondence only; HashMap<String,String> keeps insertion order and replaces on an equal key '
     '(modelled, validated by correspondence). Nesting depth: the model needs no bound (fuel is linear in the length); the C++ recursion depth '
     '(up to 1000) is validated by the depth-1000 cases only. The comment clause is proved at the tokenizer (every token is read through '
-    'readToken), not as a statement about whole documents; the processing-instruction clause for bodies without ?, CR, LF. '
+    'readToken: any mix of white space and comments in front of any token gives the same token), not as a statement about whole '
+    'documents; a comment glued to the end of a name belongs to the name (names end at / > = or white space only). The '
+    'processing-instruction clause is proved for bodies without ?, CR, LF. '
     'In-place writes of a nested content item redirect slots only (a content list of another block pointing to it is excluded by the proved '
     'count invariant). Element.line/column of elements created by toElement() are uninitialised in the code and not compared.')
 C16.rule = (
